@@ -130,6 +130,11 @@ CATALOGUE = [
 ]
 
 
+# elements (with a scalar second argument where dyadic) that, applied to an infinite list on the pinned tree, deliver the
+# first 20 items of their result within 2*20+10 pulls: found by a sweep over the whole element table; each must stay so
+WIDE = ["2$", "2%", "2*", "2+", "2-", "2/", "2<", "2=", "2>", "2J", "2Y", "2Z", "2e", "2l", "2o", "2p", "2r", "2Þf", "2ÞṀ", "2ġ", "2ƈ", "2Ǒ", "2Ǔ", "2ȯ", "2Ḋ", "2Ḟ", "2ḭ", "2ṡ", "2ẇ", "2Ẋ", "2•", "2↲", "2↳", "2∆Q", "2∆W", "2∆q", "2∆±", "2∆Ŀ", "2∆ƈ", "2∨", "2∪", "2≤", "2≥", "2⊍", "2⋎", "2⋏", "2⟇", "2⟑", "2꘍", "3$", "3%", "3*", "3+", "3-", "3/", "3<", "3=", "3>", "3J", "3Y", "3Z", "3e", "3l", "3o", "3p", "3r", "3Þf", "3ÞṀ", "3ġ", "3ƈ", "3Ǒ", "3Ǔ", "3ȯ", "3Ḋ", "3ḭ", "3ṡ", "3•", "3↲", "3↳", "3∆Q", "3∆W", "3∆q", "3∆±", "3∆Ŀ", "3∆ƈ", "3∨", "3∪", "3≤", "3≥", "3⊍", "3⋎", "3⋏", "3⟇", "3⟑", "3꘍", ":", "C", "D", "H", "K", "N", "T", "U", "b", "d", "f", "m", "y", "z", "¡", "¦", "¨^", "¨□", "¯", "±", "²", "½", "ÞU", "æ", "øB", "øF", "øb", "øe", "øḂ", "øḃ", "øṁ", "ċ", "ė", "Ġ", "Ǎ", "ǎ", "Ǐ", "ǐ", "ǒ", "ȧ", "ɽ", "ɾ", "ʀ", "ʁ", "ḃ", "Ḣ", "ḣ", "ṙ", "Ṡ", "‹", "›", "↵", "∆C", "∆D", "∆E", "∆K", "∆L", "∆R", "∆S", "∆T", "∆c", "∆e", "∆i", "∆l", "∆o", "∆p", "∆s", "∆t", "∆¢", "∆²", "∆Ċ", "∆ċ", "∆Ė", "∆ė", "∆τ", "∆Ṗ", "∆ṗ", "∆ṫ", "√", "∷", "⌈", "⌊", "⌐", "ꜝ"]
+
+
 def pulls_for(prog, n, seconds=5):
     """run prog on an instrumented infinite source, take n items of the result; -> (pulls, error)"""
     import vyxal.helpers  # noqa
